@@ -30,6 +30,9 @@ pub struct Features {
     pub pub_item: String,
     pub hidden_item: String,
     pub n: u64,
+    /// how the compiler is given the entry path: abs | rel | dot-rel (./x) | via-symlink (absolute path through a symlink to the tree)
+    #[serde(default)]
+    pub entry_spelling: String,
 }
 
 #[derive(Serialize, Deserialize, Clone, Debug)]
@@ -156,6 +159,12 @@ pub fn random_features(seed: u64) -> Features {
         2 | 3 => "crate",
         _ => "plain",
     };
+    // `..` must stay inside the tree (what lies above the tree root is not ours to define): give the importer enough depth
+    let placement = match (prefix, placement) {
+        ("parent", "entry-root") | ("parent", "dep-flat") => "entry-nested",
+        ("parent2", p) if p != "entry-nested" => "entry-nested",
+        (_, p) => p,
+    };
     let target_dirs: Vec<String> = match r.below(4) {
         // `import a::b` means item b of module a (documented: `import module::item`), so a bare module import has one segment
         _ if spelling == "rust-module" => vec![],
@@ -195,11 +204,12 @@ pub fn random_features(seed: u64) -> Features {
         placement: placement.into(),
         item_kind: item_kind.into(),
         target_dirs,
-        proj: r.below(3) as u8,
+        proj: r.below(5) as u8,
         tname: format!("tmod{a}"),
         pub_item: item_name(item_kind, &format!("pub_item_{b}")),
         hidden_item: item_name(item_kind, &format!("hidden_item_{c}")),
         n: r.range(1, 500),
+        entry_spelling: r.pick(&["abs", "abs", "rel", "dot-rel", "via-symlink", "bare"]).to_string(),
     }
 }
 
@@ -221,20 +231,26 @@ pub fn build(f: &Features, order_seed: u64) -> Scn {
     let mut tree = Tree::default();
     let (proj_prefix, has_src) = if prefix == "crate" {
         match f.proj {
-            0 => ("".to_string(), true),    // <root>/src/...
-            1 => ("".to_string(), false),   // <root>/Cargo.toml, sources at root
-            _ => ("ws/".to_string(), true), // nested project dir
+            0 | 3 => ("".to_string(), true),     // <root>/src/... (3: plus a Cargo.toml next to src/)
+            1 => ("".to_string(), false),        // <root>/Cargo.toml, sources at root
+            2 => ("ws/".to_string(), true),      // nested project dir
+            _ => ("outer/inner/".to_string(), true), // a project inside another project: the nearest root wins
         }
     } else {
         ("".to_string(), false)
     };
-    if prefix == "crate" && !has_src {
+    if prefix == "crate" && (!has_src || f.proj == 3) {
         tree.file(&format!("{proj_prefix}Cargo.toml"), "[package]\nname = \"p\"\nversion = \"0.1.0\"\n");
+    }
+    if prefix == "crate" && f.proj == 4 {
+        // the enclosing project has its own root markers and a decoy module of the same name
+        tree.file("outer/Cargo.toml", "[package]\nname = \"outer\"\nversion = \"0.1.0\"\n");
+        tree.file("outer/src/placeholder.incn", "pub def placeholder() -> int:\n    return 0\n");
     }
     let src_root = if has_src { format!("{proj_prefix}src/") } else { proj_prefix.clone() };
     let (entry_rel, importer_rel): (String, String) = match placement {
         "entry-root" => ("main.incn".into(), "main.incn".into()),
-        "entry-nested" => ("app/main.incn".into(), "app/main.incn".into()),
+        "entry-nested" => ("app/cli/main.incn".into(), "app/cli/main.incn".into()),
         "dep-flat" => ("main.incn".into(), "mid.incn".into()),
         _ => ("main.incn".into(), "sub/mid.incn".into()),
     };
@@ -409,7 +425,30 @@ fn markers_in(src: &str) -> Option<String> {
 
 /// The command-line compiler's view, in-process on a fresh simulated process instance.
 pub fn cli_view(root: &Path, scn: &Scn, hash_seed: u64, with_check: bool) -> CliView {
-    let entry_abs = root.join(&scn.entry).to_string_lossy().to_string();
+    let entry_abs = match scn.f.entry_spelling.as_str() {
+        "rel" => {
+            let _ = std::env::set_current_dir(root);
+            scn.entry.clone()
+        }
+        "dot-rel" => {
+            let _ = std::env::set_current_dir(root);
+            format!("./{}", scn.entry)
+        }
+        "bare" => {
+            // invoked from the entry file's own directory with just the file name
+            let p = root.join(&scn.entry);
+            let _ = std::env::set_current_dir(p.parent().unwrap_or(root));
+            p.file_name().map(|n| n.to_string_lossy().to_string()).unwrap_or_default()
+        }
+        "via-symlink" => {
+            // the same tree reached through a symbolic link to its root directory
+            let link = root.with_file_name("t-link");
+            let _ = std::fs::remove_file(&link);
+            let _ = std::os::unix::fs::symlink(root, &link);
+            link.join(&scn.entry).to_string_lossy().to_string()
+        }
+        _ => root.join(&scn.entry).to_string_lossy().to_string(),
+    };
     let entry_rel = scn.entry.clone();
     let root_s = root.to_string_lossy().to_string();
     let tree_paths: Vec<String> = scn.tree.nodes.iter().map(|(p, _)| p.clone()).collect();
@@ -429,7 +468,7 @@ pub fn cli_view(root: &Path, scn: &Scn, hash_seed: u64, with_check: bool) -> Cli
             }
             Err(e) => {
                 // an unreadable target: the message names the path the compiler resolved to
-                let msg = e.message.replace(&format!("{root_s}/"), "");
+                let msg = e.message.replace(&format!("{root_s}/"), "").replace(&format!("{}/", root_s.replace("/t", "/t-link")), "");
                 for p in &tree_paths {
                     if msg.contains(&format!("'{p}'")) {
                         v.loaded.insert(p.clone());
@@ -446,6 +485,7 @@ pub fn cli_view(root: &Path, scn: &Scn, hash_seed: u64, with_check: bool) -> Cli
         }
         v
     });
+    let _ = std::env::set_current_dir("/");
     match r {
         Ok(v) => v,
         Err(e) => CliView { panic: Some(e), ..Default::default() },
@@ -576,7 +616,17 @@ pub struct Finding {
 }
 
 fn shape(f: &Features) -> String {
-    format!("{}|{}|{}|{}|{}|dirs{}|proj{}", f.spelling, f.prefix, f.layout, f.placement, f.item_kind, f.target_dirs.len(), if f.prefix == "crate" { f.proj } else { 0 })
+    format!(
+        "{}|{}|{}|{}|{}|dirs{}|proj{}{}",
+        f.spelling,
+        f.prefix,
+        f.layout,
+        f.placement,
+        f.item_kind,
+        f.target_dirs.len(),
+        if f.prefix == "crate" { f.proj } else { 0 },
+        if f.entry_spelling.is_empty() || f.entry_spelling == "abs" { String::new() } else { format!("|entry={}", f.entry_spelling) }
+    )
 }
 
 pub fn fingerprint_of(f: &Features, class: &str, outcome: &str) -> String {
@@ -778,12 +828,16 @@ pub fn minimise(scn: &Scn, class: &str, outcome: &str, scratch: &Path, fakebin: 
         let f = &cur.f;
         if f.placement != "entry-root" {
             let mut c = f.clone();
-            c.placement = "entry-root".into();
-            cands.push(c);
-            if f.placement.starts_with("dep-nested") {
-                let mut c = f.clone();
-                c.placement = "dep-flat".into();
+            c.placement = if f.prefix.starts_with("parent") { "entry-nested".into() } else { "entry-root".into() };
+            if c.placement != f.placement {
                 cands.push(c);
+            }
+            if f.placement.starts_with("dep-nested") {
+                if !f.prefix.starts_with("parent") {
+                    let mut c = f.clone();
+                    c.placement = "dep-flat".into();
+                    cands.push(c);
+                }
                 if f.placement != "dep-nested" {
                     let mut c = f.clone();
                     c.placement = "dep-nested".into();
@@ -836,6 +890,11 @@ pub fn minimise(scn: &Scn, class: &str, outcome: &str, scratch: &Path, fakebin: 
         if f.prefix == "crate" && f.proj != 0 {
             let mut c = f.clone();
             c.proj = 0;
+            cands.push(c);
+        }
+        if !f.entry_spelling.is_empty() && f.entry_spelling != "abs" {
+            let mut c = f.clone();
+            c.entry_spelling = "abs".into();
             cands.push(c);
         }
         for c in cands {
